@@ -4,7 +4,7 @@ NOTES = ("Runtime monitoring only: every verdict is an oracle observing executio
          "Known findings: /verif/known_findings.json (2 open, both pinned by existing tests; the fix: commits are listed as fixed and suppress nothing). "
          "Validation of the monitors: 143+ independent seeded changes in /verif/seeded (tools/runseeded.sh), every fix reversed (tools/regress.sh), behaviour-preserving refactors in "
          "/verif/neutral (tools/runneutral.sh), syntactic mutation screening (tools/mutscreen.py, mutscreen/SUMMARY.md). Thorough tier adds a coverage-based reach audit to the evidence.")
-HOOK_COMMITS = ["f9ac6f7"]
+HOOK_COMMITS = ["f9ac6f7", "155194a"]
 
 add("C01", "exploration",
     "runtime monitor: encode/decode round-trip oracle over generated well-formed packets (class cross product + seeded fill), recover()-guarded, independent RFC decoder as diagnostic",
@@ -31,15 +31,15 @@ add("C06", "exploration",
     "200k/5M operation sequences over boundary MTUs, wrap-adjacent sequencers, sample counts around 2^32 and adversarial clock instants; 1k/30k shared-sequencer runs on the race build.",
     "Fragments are what the wrapped payloader returned; padding packets' timestamp and size-vs-MTU are not judged (the property does not fix them).")
 add("C07", "exploration",
-    "Go race detector + client-boundary history recording checked offline by porcupine (linearizability against a sequential (last, rollovers) model) and by an O(n log n) unique-value real-time-order checker; exhaustive sequential pass over all 65 536 start values",
-    "All 65 536 start values; 10k/200k short concurrent histories with the wrap inside and 3/100 long histories on the race-instrumented build with injected yields (client side and at an in-method hook); 800k/8M random sequencers.",
+    "Go race detector + client-boundary history recording checked offline by porcupine (linearizability against a sequential (last, rollovers) model) and by an O(n log n) unique-value real-time-order checker; exhaustive sequential pass over all 65 536 start values; rollover-count walks at 2^8..2^64 completed rollovers (state hook) and a black-box walk of 2^32 + 2^18 values",
+    "All 65 536 start values; the rollover count followed across every power-of-two magnitude (hook; thorough and hook-less builds also draw 2^32 values from one sequencer); 10k/200k short concurrent histories with the wrap inside and 3/100 long histories on the race-instrumented build with injected yields (client side and at an in-method hook); 800k/8M random sequencers.",
     "Only schedules the Go scheduler produced were observed; a race-free non-atomic change is found probabilistically (the evidence counts overlapping operations and distinct issue orders).")
 add("C08", "exploration",
     "runtime monitor: recover() guard, MTU bound, input immutability (within len and in spare capacity), address-range overlap monitor (fragments vs caller buffers, fragments vs each other, hooked retained state), scribble twin across calls, interleaved unrelated instance, Go race detector tripwire",
     "Every payloader/option x every MTU 0-16; 300k/8M instance runs of 1-4 calls (MTU may change between calls) over hostile, seeded and valid inputs incl. > 65535 fragments and LEB128-boundary packing; 6k/300k race-build tripwire runs.",
     "VP9 with nil InitialPictureIDFn is random by design (no twin compare); the race tripwire is secondary to the overlap and twin monitors.")
 add("C09", "exploration",
-    "runtime monitor: recover() guard, fresh-vs-reused receiver twin (result, error-ness, metadata), scribble twin + address-range overlap monitor on hooked retained state, interleaved unrelated receiver, exhaustive short strings",
+    "runtime monitor: recover() guard, fresh-vs-reused receiver twin (result, error-ness, metadata, also after IsPartitionHead/Tail calls about other payloads), scribble twin + address-range overlap monitor on hooked retained state, interleaved unrelated receiver, exhaustive short strings",
     "Every byte string of length <=2 (thorough <=3) through 21 persistent receivers; 400k/10M hostile sequences of 1-20 payloads incl. payloads beyond 64 KiB; race-build tripwire on the stateful receivers.",
     "Metadata = exported fields / accessor values; compared when the fresh decode succeeds.")
 add("C10", "exploration",
@@ -48,7 +48,7 @@ add("C10", "exploration",
     "NAL content follows the start-code emulation rule (no 00 00 0x) and does not end in 00; parameter sets only as adjacent SPS,PPS pairs followed by an emitted unit.")
 add("C11", "exploration",
     "runtime monitor: concatenation oracle + shadow picture-id counter (66 000-frame instance runs across 128 and two 15-bit wraps) + independent RFC 7741 descriptor parser/encoder; exhaustive flag space for the decoder",
-    "All 2^10 flag combinations x PID x RSV with boundary field values, every truncation, IsPartitionHead == S; 40k/1M short and 16/300 long instance runs; frames beyond 64 KiB.",
+    "All 2^10 flag combinations x PID x RSV with boundary field values, every truncation, IsPartitionHead == S; 40k/1M short and 16/300 long instance runs; frames beyond 64 KiB; a third of the frames shaped like VP8 bitstreams (frame tag, start code, first-partition size at packet boundaries).",
     "Fields whose presence flag is clear must read as zero; a complete descriptor is accepted whatever follows it.")
 add("C12", "exploration",
     "runtime monitor: independent VP9 uncompressed-header bit-writer and RFC 9628 descriptor encoder/parser; concatenation oracle; shadow picture-id counter (70 000-frame runs)",
@@ -71,13 +71,13 @@ add("C16", "exploration",
     "The complete 321x320 grid for both payloaders, k*MTU-1..k*MTU+1 for nine MTUs, 65536*MTU+-1 at MTU 1-3, 200k/4M random pairs, Opus lengths 0-320 + nil.",
     "Input bytes are random; the split is value-independent in the code observed.")
 add("C17", "exploration",
-    "runtime monitor: exhaustive execution of the value domains (2x256, 2^16, 2^24, 2^24) against bit layouts from the specifications; pre-loaded receiver twin; every input length 0..size+2 and much longer ones; returned buffers must be fresh",
+    "runtime monitor: exhaustive execution of the value domains (2x256, 2^16, 2^24, 2^24) against bit layouts from the specifications; pre-loaded receiver twin; every input length 0..size+2 and much longer ones; returned buffers must be fresh; values decoded earlier re-checked after later decodes",
     "Every value of AudioLevel, TransportCC, PlayoutDelay and AbsSendTime; AbsCaptureTime 2^21 (quick) / 2^24 (thorough) seeded 64-bit values x 3 receiver histories.",
     "Layouts restated in the monitor from RFC 6464 / the WebRTC extension documents.")
 add("C18", "exploration",
     "runtime monitor: integer-nanosecond reference bounds over boundary-concentrated (instant, offset, delay) triples; time.Time values with locations and monotonic readings",
     "About 10M (quick) / 300M (thorough) triples concentrated at 64 s wraps, whole seconds, 2^-18 s field-unit boundaries, the era end, offset extremes and the largest allowed delay.",
-    "Send and receive instants both before the NTP era end; 1 ns conversion slack.")
+    "Send instants before the NTP era end, receive instants up to 64 s after it; 1 ns conversion slack.")
 add("C19", "exploration",
     "runtime monitor: differential against an independent video-layers-allocation00 encoder/decoder over all slot subsets; fresh-vs-used receiver twin; recover()-guarded decoder fuzz",
     "Thorough executes all 69 900 slot subsets x resolution flag; quick all subsets for <=2 streams plus 100 000 sampled; encodings beyond 255 bytes; 10k/200k invalid values; 15k/400k fuzz streams.",
